@@ -110,7 +110,12 @@ Section Core.
   Theorem core_safe : table_safe tbl_core.
   Proof.
     unfold tbl_core.
-    repeat apply table_safe_app;
-      [exact noop_safe|exact boolean_safe|exact integer_safe|exact float_safe|exact name_safe|exact code_safe|exact exec_safe|exact index_safe].
+    apply table_safe_app; [exact noop_safe|].
+    apply table_safe_app; [exact boolean_safe|].
+    apply table_safe_app; [exact integer_safe|].
+    apply table_safe_app; [exact float_safe|].
+    apply table_safe_app; [exact name_safe|].
+    apply table_safe_app; [exact code_safe|].
+    apply table_safe_app; [exact exec_safe|exact index_safe].
   Qed.
 End Core.
